@@ -127,6 +127,7 @@ var h18cTemplates = []string{
 	"%5B%3A%3A" + hDig + "%5D%3A" + hDig,                       // 14 IPv6 with port
 	hSyn + "%40" + hSyn,                                        // 15 user-info
 	"a:" + hSyn + hSyn,                                         // 16
+	"a%3A", "a%3A:b",                                           // 17-18 empty port
 }
 
 // H18c1: which request does Resolve send? For every id over the bytes of the DID syntax (idchar, ':', '%' - what a
@@ -179,7 +180,13 @@ func H18c1() {
 	vAssert(r.Body == nil && r.ContentLength == 0, "H18c1.no_body: request has a body")
 	vAssert(r.URL != nil && r.URL.Scheme == "https", "H18c1.scheme_https: request is not https")
 	vAssert(r.URL.User == nil, "H18c1.no_userinfo: request URL carries user-info")
-	vAssert(r.URL.Host == base.Host && (r.Host == "" || r.Host == base.Host), "H18c1.host_of_id: request goes to another host than the id encodes")
+	wantHost := base.Host
+	if len(wantHost) > 0 && wantHost[len(wantHost)-1] == ':' {
+		// "host:" and "host" are the same authority (RFC 3986 6.2.3); net/http drops the empty port
+		vCover("empty-port")
+		wantHost = wantHost[:len(wantHost)-1]
+	}
+	vAssert((r.URL.Host == base.Host || r.URL.Host == wantHost) && (r.Host == "" || r.Host == r.URL.Host), "H18c1.host_of_id: request goes to another host than the id encodes")
 	vAssert(net.ParseIP(r.URL.Hostname()) == nil, "H18c1.host_not_ip: request goes to an IP address literal")
 	if !hInDIDSyntax(idstr) {
 		vCover("id-outside-did-syntax")
